@@ -63,6 +63,7 @@ def _check_1d(desc, tier, V, st):
     data = [('e%d' % i, np.eye(n)[i]) for i in range(n)]
     data.append(('scaled1', np.array([10.0 ** (8 - 16 * (i % 2)) for i in range(n)])))
     data.append(('scaled2', np.array([10.0 ** (-8 + 16 * i / max(1, n - 1)) for i in range(n)])))
+    data.append(('integer-typed', np.array([((7 * i * i + 3 * i) % 11) - 5 for i in range(n)], dtype=np.int64)))      # data handed over as an integer array
     if not S.per:
         for k in range(d + 1):
             data.append(('x^%d' % k, pts ** k))
@@ -80,7 +81,7 @@ def _check_1d(desc, tier, V, st):
             V('interp-exception:%s:%s' % (cls, type(e).__name__), '%s data=%s: %s: %s' % (key, name, type(e).__name__, e))
             continue
         c = np.asarray(spl.coeffs, dtype=float)
-        want = S.coeffs(u)
+        want = S.coeffs(np.asarray(u, dtype=float))
         if not (np.abs(c - want).max() <= tol):
             V('coefficients:' + cls, '%s data=%s: coefficients off by %.3g (tol %.3g)' % (key, name, np.abs(c - want).max(), tol))
         if S.per and not np.array_equal(c[n:n + d], c[:d]):
